@@ -125,9 +125,9 @@ CHECKS = {
               "unchanged, returns what it writes and is idempotent; the propositional export's meaning is independent of the order "
               "of its formulas. Observed, not proved (suite H decides this check): byte-identical output of all eight writers across "
               "fresh processes, hash seeds, locales and default encodings, returned = file, UTF-8 files read back with the same "
-              "names, model dump unchanged."),
+              "names, model dump unchanged. Source tie (DESIGN §10): six writers are re-translated from the Python text on every run; the translator accepts a mutation only on containers the function created itself and the one with-open-write of the local that is then returned, so the existence of the translations (obligation source-translation) is 'does not modify the model, writes UTF-8, returns what it wrote' read off the source, and C12_source_output_is_a_function_of_the_model that the output depends on the model alone."),
         note="Coq kernel for the model-level statements; the environment independence is sampled (5 / 24 environments), it cannot be a theorem about a Gallina model",
-        technique="Coq proof of model-level purity + observational determinism suite across interpreter environments",
+        technique="Coq proof of model-level purity + observational determinism suite across interpreter environments + source re-translated into Gallina on every run (tools/py2coq.py) and proved equal to the model",
         design="4 C12"),
     "C17": dict(
         text=("Theorems over the Gallina transcription of the 40 metric methods and Metrics.execute: every metric once in dir() "
@@ -217,20 +217,20 @@ CHECKS = {
               "statement is refuted by a witness — open finding in the flamapy.core dependency), no feature is missing; pl — the "
               "exported lines hold exactly for the valid configurations of the model (cardinality groups as the disjunction over "
               "subsets; all constraints), every feature is mentioned. Bytes tied to the code by suites W-splot / W-pl; independent "
-              "interpreters of the two formats enumerate the configurations of the written files (suites S-*). A second open finding (names not made safe for SXFM / .exp) is reproduced by suite W-export-known."),
+              "interpreters of the two formats enumerate the configurations of the written files (suites S-*). A second open finding (names not made safe for SXFM / .exp) is reproduced by suite W-export-known. Source tie (DESIGN §10): splot_writer.py and pl_writer.py are re-translated on every run (Gen/Src_splot.v, Gen/Src_pl.v); C10_source_splot_text proves the translated fm_to_splot equal to the rendering of the SXFM document the semantic theorems are about, C10_source_pl_lines that the lines of the translated to_exp are a permutation of the rendered formulas (the explicit-stack order of the code)."),
         note=("Coq kernel; extraction/driver; harness interpreters of SXFM and pl (the check's reading of the formats); the Gallina "
               "semantics of the two formats; no axioms"),
-        technique="Coq proof (semantic preservation of the export over format semantics) + differential correspondence",
+        technique="Coq proof (semantic preservation of the export over format semantics) + differential correspondence + source re-translated into Gallina on every run (tools/py2coq.py) and proved equal to the model",
         design="4 C10"),
     "C11": dict(
         text=("Theorems over the Gallina model of clafer_writer.py with a semantics of the Clafer subset: the instances of the "
               "exported hierarchy and constraints are exactly the valid configurations of the model (unique names; every relation "
               "kind the writer maps to xor/or/mux/[a..b]/?), every logical operator is translated and means the same, safe "
               "identifiers are injective, every attribute is declared. Bytes tied to the code by suite W-clafer; an independent "
-              "interpreter of the Clafer subset enumerates instances of the written file (suite S-clafer). One open finding (quotes / line breaks / digit-only names / the writer's own clafer names) is reproduced by suite W-clafer-known."),
+              "interpreter of the Clafer subset enumerates instances of the written file (suite S-clafer). One open finding (quotes / line breaks / digit-only names / the writer's own clafer names) is reproduced by suite W-clafer-known. Source tie (DESIGN §10): clafer_writer.py is re-translated on every run (Gen/Src_clafer.v); C11_source_text proves the translated fm_to_clafer equal to the rendering of the Clafer document the semantic theorems are about, errors included, for every model whose real values have a pointed positional spelling (every genuine float repr)."),
         note=("Coq kernel; extraction/driver; harness interpreter of the Clafer subset (no Clafer tool is installed); the Gallina "
               "semantics of the subset; no axioms"),
-        technique="Coq proof (semantic preservation of the export over a Clafer-subset semantics) + differential correspondence",
+        technique="Coq proof (semantic preservation of the export over a Clafer-subset semantics) + differential correspondence + source re-translated into Gallina on every run (tools/py2coq.py) and proved equal to the model",
         design="4 C11"),
 }
 
